@@ -49,6 +49,12 @@ class FuncRef:
     def __repr__(self):
         return f"<ref {self.qual}>"
 
+    def __eq__(self, o):
+        return isinstance(o, FuncRef) and o.obj is self.obj and o.qual == self.qual
+
+    def __hash__(self):
+        return hash(self.qual)
+
 
 class ExcVal:
     def __init__(self, name, args=()):
@@ -165,12 +171,23 @@ class Executor(ExprMixin, StmtMixin, LoopMixin):
 
     def read_field(self, st, recv: Val, name: str) -> Val:
         cs = self.class_of(recv.ty)
+        pk = (str(recv.term), name)
+        if pk in st.pyheap:
+            return st.pyheap[pk]
         ft = cs.fields[name]
         arr = self.field_array(st, cs.name, name)
         return Val(ft, z3.Select(arr, lift(recv)))
 
     def write_field(self, st, recv: Val, name: str, v: Val, node=None):
         cs = self.class_of(recv.ty)
+        if v.ty is PYOBJ and name not in cs.fields:
+            # python-level value (closure, class, heterogeneous constant): kept outside the SMT heap, which is
+            # only possible when the receiver is a definite object (a constant, not an ite/select term)
+            if not (z3.is_const(recv.term) and recv.term.decl().kind() == z3.Z3_OP_UNINTERPRETED):
+                raise Unsupported(f"python-level value stored into a field of a non-definite object ({cs.name}.{name})", node)
+            st.pyheap[(str(recv.term), name)] = v
+            return
+        st.pyheap.pop((str(recv.term), name), None)
         if name not in cs.fields:
             if not cs.dynamic:
                 raise Unsupported(f"store to undeclared field {cs.name}.{name}", node)
